@@ -200,6 +200,54 @@ pub fn __as_f64<T: ToF64>(x: T) -> (r: f64) ensures r == x.to_f64_spec() { x.__t
 // R13: identity on f64 (see rule R13 of the extractor)
 pub fn __idf(x: f64) -> (r: f64) ensures r == x { x }
 
+// ---- prelude fragment: ideal.rs ----
+// Floating point, layer 2 ("idealised real" mode of DESIGN.md 3.2): machine arithmetic treated as
+// mathematical.  rv maps a float to the real it denotes; rounding, overflow, NaN and signed zero are
+// ignored.  Used only where the property is a statement of real arithmetic.
+pub uninterp spec fn rv(x: f64) -> real;
+pub broadcast axiom fn ax_rv_add(a: f64, b: f64) ensures rv(#[trigger] fadd(a, b)) == rv(a) + rv(b);
+pub broadcast axiom fn ax_rv_sub(a: f64, b: f64) ensures rv(#[trigger] fsub(a, b)) == rv(a) - rv(b);
+pub broadcast axiom fn ax_rv_mul(a: f64, b: f64) ensures rv(#[trigger] fmul(a, b)) == rv(a) * rv(b);
+pub broadcast axiom fn ax_rv_div(a: f64, b: f64) ensures rv(b) != 0real ==> rv(#[trigger] fdiv(a, b)) == rv(a) / rv(b);
+pub broadcast axiom fn ax_rv_neg(a: f64) ensures rv(#[trigger] fneg(a)) == 0real - rv(a);
+pub broadcast axiom fn ax_rv_cmp(a: f64, b: f64)
+    ensures #[trigger] fcmp(a, b) == (if rv(a) < rv(b) { Some(core::cmp::Ordering::Less) }
+        else if rv(a) == rv(b) { Some(core::cmp::Ordering::Equal) } else { Some(core::cmp::Ordering::Greater) });
+pub broadcast axiom fn ax_rv_eq(a: f64, b: f64) ensures #[trigger] feq(a, b) == (rv(a) == rv(b));
+pub broadcast axiom fn ax_rv_max(a: f64, b: f64) ensures rv(#[trigger] fmaxf(a, b)) == (if rv(a) >= rv(b) { rv(a) } else { rv(b) });
+pub broadcast axiom fn ax_rv_min(a: f64, b: f64) ensures rv(#[trigger] fminf(a, b)) == (if rv(a) <= rv(b) { rv(a) } else { rv(b) });
+// (idealised) powf denotes a function of the real values of its arguments
+pub uninterp spec fn rpow(x: real, y: real) -> real;
+pub broadcast axiom fn ax_rv_powf(a: f64, b: f64) ensures rv(#[trigger] fpowf(a, b)) == rpow(rv(a), rv(b));
+pub axiom fn ax_rv_lits()
+    ensures rv(0.0f64) == 0real, rv(1.0f64) == 1real, rv(2.0f64) == 2real, rv(0.5f64) * 2real == 1real;
+pub broadcast group ideal {
+    ax_rv_add, ax_rv_sub, ax_rv_mul, ax_rv_div, ax_rv_neg, ax_rv_cmp, ax_rv_eq, ax_rv_max, ax_rv_min, ax_rv_powf
+}
+// (idealised) integer-to-float casts are exact
+pub broadcast axiom fn ax_rv_u64(n: u64) ensures rv(#[trigger] u64_to_f64(n)) == n as real;
+pub broadcast axiom fn ax_rv_usize(n: usize) ensures rv(#[trigger] usize_to_f64(n)) == n as real;
+pub broadcast group ideal_casts { ax_rv_u64, ax_rv_usize }
+
+pub open spec fn is_max_of(s: Seq<f64>, m: f64) -> bool {
+    (exists|i: int| 0 <= i < s.len() && #[trigger] s[i] == m) && forall|j: int| 0 <= j < s.len() ==> rv(#[trigger] s[j]) <= rv(m)
+}
+#[verifier::external_body]
+pub fn __abs_reduce_max(cum_reg: &mut [f64]) -> (r: Option<f64>)
+    ensures final(cum_reg)@ == old(cum_reg)@,
+        old(cum_reg)@.len() == 0 ==> r is None,
+        old(cum_reg)@.len() > 0 ==> r is Some && is_max_of(old(cum_reg)@, r->0),
+{ unimplemented!() }
+pub open spec fn rmax(a: real, b: real) -> real { if a >= b { a } else { b } }
+pub open spec fn rdiv(x: real, d: real) -> real { x / d }
+pub broadcast proof fn lemma_rdiv_nonneg(x: real, d: real)
+    requires x >= 0real, d > 0real,
+    ensures #[trigger] rdiv(x, d) >= 0real, x == 0real ==> rdiv(x, d) == 0real,
+{
+    assert(x / d >= 0real) by(nonlinear_arith) requires x >= 0real, d > 0real;
+    if x == 0real { assert(0real / d == 0real) by(nonlinear_arith) requires d > 0real; }
+}
+
 // ---- extracted from src/solve/data.rs: struct RegretParams ----
 #[derive(Clone, Copy)]
 pub struct RegretParams {
@@ -230,137 +278,34 @@ pub struct RegretParams {
     pub no_positive: f64,
 }
 
-// R5: the four update helpers of RegretParams seen from their callers: each is a PURE function of its
-// arguments with a frame (regret_match and cum_regret do not modify the regrets).  These contracts
-// are discharged per helper by Kani harnesses on the real bodies (c08_regret_match_*,
-// c08_discount_cum_regret, c08_discount_average_strat, c02_cum_regret_formula: formula + frame,
-// bounded to slices of length <= 3), so they are cited at the bounded level, assumed beyond it.
-pub uninterp spec fn rm_spec(p: RegretParams, cum_reg: Seq<f64>) -> Seq<f64>;
-pub uninterp spec fn dcr_spec(p: RegretParams, it: u64, cum_reg: Seq<f64>) -> Seq<f64>;
-pub uninterp spec fn das_spec(p: RegretParams, it: u64, avg: Seq<f64>) -> Seq<f64>;
-pub uninterp spec fn cr_spec(p: RegretParams, it: u64, cum_reg: Seq<f64>) -> f64;
+// ---- extracted from src/solve/data.rs: impl RegretParams ----
 impl RegretParams {
-    #[verifier::external_body]
-    pub fn regret_match(&self, cum_reg: &mut [f64], strat: &mut [f64])
-        ensures final(strat)@ == rm_spec(*self, old(cum_reg)@), final(cum_reg)@ == old(cum_reg)@,
-    { unimplemented!() }
-    #[verifier::external_body]
-    pub fn discount_cum_regret(&self, it: u64, cum_reg: &mut [f64])
-        ensures final(cum_reg)@ == dcr_spec(*self, it, old(cum_reg)@),
-    { unimplemented!() }
-    #[verifier::external_body]
-    pub fn discount_average_strat(&self, it: u64, avg_strat: &mut [f64])
-        ensures final(avg_strat)@ == das_spec(*self, it, old(avg_strat)@),
-    { unimplemented!() }
-    #[verifier::external_body]
-    pub fn cum_regret(&self, it: u64, cum_reg: &mut [f64]) -> (r: f64)
-        ensures r == cr_spec(*self, it, old(cum_reg)@), final(cum_reg)@ == old(cum_reg)@,
-    { unimplemented!() }
-}
-
-// ---- extracted from src/solve/data.rs: struct RegretInfoset ----
-pub struct RegretInfoset {
-    pub cum_regret: Box<[f64]>,
-    pub cum_strat: Box<[f64]>,
-    pub strat: Box<[f64]>,
-}
-
-pub trait PlayerRecurse {
-    fn update_cum_strat(&mut self, prob: f64);
-    fn advance(&mut self, it: u64, params: &RegretParams) -> f64;
-}
-pub struct Player { }
-pub struct Node { }
-pub trait ActiveInfo {
-    // callers pass the loop variable of `for it in 1..=max_iter`
-    fn advance<const FIRST: bool>(&mut self, it: u64, params: &RegretParams) -> f64
-        requires it >= 1;
-}
-
-// ---- extracted from src/solve/vanilla.rs: impl PlayerRecurse for RegretInfoset ----
-impl PlayerRecurse for RegretInfoset {
-fn advance(&mut self, it: u64, params: &RegretParams) -> (r: f64) 
+pub fn cum_regret(&self, it: u64, cum_reg: &mut [f64]) -> (r: f64)
+    
+    requires
+        it >= 1,
     ensures
-        // textbook order: the next strategy is matched on the regrets BEFORE discounting ...
-        final(self).strat@ == rm_spec(*params, old(self).cum_regret@), // @ob C08.V.advance.match_before_discount
-        // ... then regrets and average strategy are discounted with the caller's iteration number ...
-        final(self).cum_regret@ == dcr_spec(*params, it, old(self).cum_regret@), // @ob C08.V.advance.discount_regrets
-        final(self).cum_strat@ == das_spec(*params, it, old(self).cum_strat@), // @ob C08.V.advance.discount_average
-        // ... and the reported bound is that of the regrets AFTER discounting, same iteration number
-        r == cr_spec(*params, it, final(self).cum_regret@), // @ob C02.V.advance.reports_bound
+        final(cum_reg)@ == old(cum_reg)@,
+        // the per-infoset bound of the CFR theorem: 2 max(max_a R_a, 0) / T -- never negative, and 0 for an
+        // infoset without regrets
+        old(cum_reg)@.len() == 0 ==> rv(r) == 0real, // @ob C02.V.cum_regret.formula
+        forall|m: f64| is_max_of(old(cum_reg)@, m) ==> rv(r) == rdiv(2real * rmax(rv(m), 0real), it as real), // @ob C02.V.cum_regret.formula
+        rv(r) >= 0real, // @ob C02.V.cum_regret.nonneg
 {
-        params.regret_match(&mut *self.cum_regret, &mut self.strat);
-        params.discount_cum_regret(it, &mut *self.cum_regret);
-        params.discount_average_strat(it, &mut self.cum_strat);
-        params.cum_regret(it, &mut *self.cum_regret)
+broadcast use fl; broadcast use ideal; broadcast use ideal_casts; broadcast use lemma_rdiv_nonneg;
+proof {
+    ax_obeys(); ax_rv_lits();
+    assert(rdiv(0real, it as real) == 0real);
+    assert(forall|m: f64| rdiv(2real * rmax(rv(m), 0real), it as real) >= 0real) by {
+        assert forall|m: f64| #[trigger] rdiv(2real * rmax(rv(m), 0real), it as real) >= 0real by { }
     }
 }
 
-// R5: std::sync::Mutex as far as `advance` uses it: get_mut() on an exclusively borrowed mutex
-// returns the protected value (lock poisoning -- the Err case -- is not modelled: assumed Ok)
-#[derive(Debug)]
-pub struct PoisonError { }
-pub struct Mutex<T> { pub inner: T }
-impl<T> Mutex<T> {
-    #[verifier::external_body]
-    pub fn get_mut(&mut self) -> (r: Result<&mut T, PoisonError>)
-        ensures r is Ok, *(r->Ok_0) == old(self).inner, final(self).inner == *final(r->Ok_0),
-    { unimplemented!() }
-}
-pub trait MutexPlayerRecurse {
-    fn advance(&mut self, it: u64, params: &RegretParams) -> f64;
-}
-
-// ---- extracted from src/solve/vanilla.rs: struct MutexRegretInfoset ----
-pub struct MutexRegretInfoset {
-    pub cum_regret: Box<[f64]>,
-    pub cum_strat: Mutex<Box<[f64]>>,
-    pub strat: Box<[f64]>,
-}
-
-// ---- extracted from src/solve/vanilla.rs: impl MutexPlayerRecurse for MutexRegretInfoset ----
-impl MutexPlayerRecurse for MutexRegretInfoset {
-fn advance(&mut self, it: u64, params: &RegretParams) -> (r: f64) 
-    ensures
-        final(self).strat@ == rm_spec(*params, old(self).cum_regret@), // @ob C08.V.advance.match_before_discount
-        final(self).cum_regret@ == dcr_spec(*params, it, old(self).cum_regret@), // @ob C08.V.advance.discount_regrets
-        final(self).cum_strat.inner@ == das_spec(*params, it, old(self).cum_strat.inner@), // @ob C08.V.advance.discount_average
-        r == cr_spec(*params, it, final(self).cum_regret@), // @ob C02.V.advance.reports_bound
-{
-        params.regret_match(&mut *self.cum_regret, &mut self.strat);
-        params.discount_cum_regret(it, &mut *self.cum_regret);
-        params.discount_average_strat(it, self.cum_strat.get_mut().unwrap());
-        params.cum_regret(it, &mut *self.cum_regret)
-    }
-}
-
-// ---- extracted from src/solve/external.rs: struct CachedInfoset ----
-pub struct CachedInfoset {
-    pub reg: RegretInfoset,
-    pub cached: usize,
-}
-
-// ---- extracted from src/solve/external.rs: impl ActiveInfo for CachedInfoset ----
-impl ActiveInfo for CachedInfoset {
-fn advance<const FIRST: bool>(&mut self, it: u64, params: &RegretParams) -> (r: f64) 
-    ensures
-        // textbook order: the next strategy is matched on the regrets BEFORE discounting ...
-        final(self).reg.strat@ == rm_spec(*params, old(self).reg.cum_regret@), // @ob C08.V.advance.match_before_discount
-        // ... then regrets and average strategy are discounted with the caller's iteration number ...
-        final(self).reg.cum_regret@ == dcr_spec(*params, it, old(self).reg.cum_regret@), // @ob C08.V.advance.discount_regrets
-        final(self).reg.cum_strat@ == das_spec(*params, (if FIRST { (it - 1) as u64 } else { it }), old(self).reg.cum_strat@), // @ob C08.V.advance.discount_average
-        // ... and the reported bound is that of the regrets AFTER discounting, same iteration number
-        r == cr_spec(*params, it, final(self).reg.cum_regret@), // @ob C02.V.advance.reports_bound
-        final(self).cached == 0, // @ob C10.V.cached_infoset.advance_resets_draw
-{
-        self.cached = 0;
-        params.regret_match(&mut *self.reg.cum_regret, &mut self.reg.strat);
-        params.discount_cum_regret(it, &mut *self.reg.cum_regret);
-        // NOTE since we alternate updates, when do the first discounting of player one's average
-        // strat, they'll actually have nothing acumulated, so we actualy want to update on the
-        // second round
-        params.discount_average_strat(if FIRST { it - 1 } else { it }, &mut self.reg.cum_strat);
-        params.cum_regret(it, &mut *self.reg.cum_regret)
+        2.0 * f64::max(
+            __abs_reduce_max(cum_reg)
+                .unwrap_or(0.0),
+            0.0,
+        ) / __as_f64(it)
     }
 }
 
@@ -369,7 +314,7 @@ fn advance<const FIRST: bool>(&mut self, it: u64, params: &RegretParams) -> (r: 
 pub proof fn __canary_must_fail()
     ensures false, // @ob __canary
 {
-    broadcast use fl; ax_obeys();
+    broadcast use fl; broadcast use ideal; broadcast use ideal_casts; ax_obeys(); ax_rv_lits();
 }
 
 } // verus!
